@@ -224,6 +224,38 @@ var scripts = []script{
 		c.Close()
 		l.Close()
 	}},
+	{"a deadline that has passed fails the operation at once, data or room notwithstanding", func(e *env, out func(string, ...any)) {
+		l, _ := e.listen(e.addr(0))
+		fire, wait := e.signal()
+		e.spawn(func() {
+			c, _ := l.Accept()
+			c.Write([]byte("data"))
+			fire()
+			b := make([]byte, 16)
+			n, err := c.Read(b)
+			out("srv read %d %q %s", n, b[:n], class(err))
+			c.Close()
+		})
+		c, _ := e.dial(listenAddr(l), time.Second)
+		wait()
+		e.sleep(50 * time.Millisecond) // the data has arrived
+		c.SetWriteDeadline(e.now().Add(20 * time.Millisecond))
+		c.SetReadDeadline(e.now().Add(20 * time.Millisecond))
+		e.sleep(60 * time.Millisecond)
+		n, err := c.Write([]byte("late"))
+		out("write after its deadline %d %s", n, class(err))
+		b := make([]byte, 16)
+		n, err = c.Read(b)
+		out("read after its deadline %d %s", n, class(err))
+		c.SetWriteDeadline(time.Time{})
+		c.SetReadDeadline(time.Time{})
+		n, err = c.Write([]byte("ok"))
+		out("write without deadline %d %s", n, class(err))
+		n, err = c.Read(b)
+		out("read without deadline %d %q %s", n, b[:n], class(err))
+		c.Close()
+		l.Close()
+	}},
 	{"deadline set by another goroutine wakes a blocked read", func(e *env, out func(string, ...any)) {
 		l, _ := e.listen(e.addr(0))
 		e.spawn(func() { c, _ := l.Accept(); e.sleep(400 * time.Millisecond); c.Close() })
